@@ -249,4 +249,28 @@ def fixed_programs():
             for nargs in range(0, len(ps) + 3):
                 for via in ("create", "wrap"):
                     param_body(ps, va, nargs, via)
+    # a coroutine created inside another coroutine outlives its creator (which returns, fails, or is abandoned suspended)
+    def outlives(end, via):
+        def build(p):
+            inner_body = p.func([], p.block([p.local(["n"], [p.num(0)]), p.while_(p.true(), p.block([p.assign([p.id("n")], [p.bin("+", p.id("n"), p.num(1))]),
+                                                                                                     p.callstat(p.call(_co(p, "yield"), [p.id("n")]))]))]))
+            mk_inner = p.assign([p.id("inner")], [p.call(_co(p, "create"), [inner_body])])
+            first = p.emit([p.str("inside"), p.call(_co(p, "resume"), [p.id("inner")])])
+            tail = {"return": [p.ret([p.str("outer-done")])], "error": [p.callstat(p.call(p.id("error"), [p.str("outer-fails")]))],
+                    "suspend": [p.callstat(p.call(_co(p, "yield"), [p.str("outer-parked")])), p.ret([p.str("never")])]}[end]
+            outer_body = p.func([], p.block([mk_inner, first] + tail))
+            ss = [p.local(["inner"], [])]
+            if via == "create":
+                ss += [p.local(["outer"], [p.call(_co(p, "create"), [outer_body])]), p.emit([p.str("outer"), p.call(_co(p, "resume"), [p.id("outer")])]),
+                       p.emit([p.str("status"), p.call(_co(p, "status"), [p.id("outer")]), p.call(_co(p, "status"), [p.id("inner")])])]
+            else:
+                ss += [p.emit([p.str("outer"), p.call(p.id("pcall"), [p.call(_co(p, "wrap"), [outer_body])])]),
+                       p.emit([p.str("status"), p.call(_co(p, "status"), [p.id("inner")])])]
+            ss += [p.emit([p.str("later"), p.call(_co(p, "resume"), [p.id("inner")])]), p.emit([p.str("later"), p.call(_co(p, "resume"), [p.id("inner")])]),
+                   p.emit([p.str("end"), p.call(_co(p, "status"), [p.id("inner")])])]
+            return ss
+        mk(build)
+    for end in ("return", "error", "suspend"):
+        for via in ("create", "wrap"):
+            outlives(end, via)
     return out
